@@ -611,6 +611,8 @@ cands = {
  'extra_builtins:order': ({'extra_builtins': {'va': 1, 'vb': 2}}, {'extra_builtins': {'vb': 2, 'va': 1}}, '<a>${va}${vb}</a>'),
  'extra_builtins:order3': ({'extra_builtins': {'zz': 1, 'aa': 2, 'mm': 3}}, {'extra_builtins': {'mm': 3, 'zz': 1, 'aa': 2}}, '<a>${aa}</a>'),
  'extra_builtins:names': ({'extra_builtins': {'va': 1}}, {'extra_builtins': {'vb': 1}}, '<a/>'),
+ 'extra_builtins:concat': ({'extra_builtins': {'ab': 1, 'c': 2}}, {'extra_builtins': {'a': 1, 'bc': 2}}, '<a>${1}</a>'),
+ 'extra_builtins:concat2': ({'extra_builtins': {'x': 1, 'y': 2}}, {'extra_builtins': {'xy': 1}}, '<a>${1}</a>'),
  'extra_builtins:shadow': ({'extra_builtins': {'nothing': 1}}, {}, '<a>${nothing}</a>'),
  'default_marker': ({}, {}, '<a/>'),
  'tokenizer': ({}, {}, '<a/>'),
